@@ -3,7 +3,7 @@ import itertools
 import numpy as np
 from ai_edge_quantizer import qtyping
 from ai_edge_quantizer.algorithms.uniform_quantize import uniform_quantize_tensor as u
-from vf.monitors import contracts
+from vf.monitors import contracts, fpflags
 
 LEVEL = 'exploration'
 RULE = ('case ids < 540: the full grid {4,8,16 bit} x {sym,asym} x 9 magnitudes (1e-12..3e38) x '
@@ -29,6 +29,7 @@ def plan(tier):
 
 def setup(ctx):
   ctx.hooked = contracts.install()
+  fpflags.install()     # IEEE exception flags raised inside library frames are recorded per site (evidence, not a verdict)
 
 
 def _report_contracts(ctx):
@@ -292,6 +293,14 @@ def repo_tests_under_contracts(ctx):
 
 
 def run_case(ctx, case, rng):
+  try:
+    return _run_case(ctx, case, rng)
+  finally:
+    for (kind, site), n in fpflags.drain().items():
+      ctx.count(f'fp_exception_flag:{kind}:{site}', n)
+
+
+def _run_case(ctx, case, rng):
   if case == len(GRID):
     return repo_tests_under_contracts(ctx)
   if case < len(GRID):
@@ -317,4 +326,6 @@ def summarize(agg):
     if st.get('contract_evals:' + name, 0) == 0:
       inc.append(f'contract on {name} was never evaluated')
   backends = sorted({e.get('reason') for e in agg['cases'] if e.get('outcome') == 'meta'})
-  return {'inconclusive': inc, 'coverage': {'exhaustive_over_codes': True, 'contract_backend': backends[:1]}}
+  fp = {k.split(':', 1)[1]: v for k, v in st.items() if k.startswith('fp_exception_flag:')}
+  return {'inconclusive': inc, 'coverage': {'exhaustive_over_codes': True, 'contract_backend': backends[:1],
+                                            'fp_exception_flags_raised_in_library_frames': fp or 'none'}}
